@@ -350,6 +350,7 @@ def execute(plan: dict, *, want_digest: bool = False, want_trace: bool = False) 
         "vtime": sim.end_time,
         "sig": sim.signature(),
         "deadlock": sim.deadlock,
+        "crashed": sim.crashed,
         "step_limit": sim.step_limit,
         "nontrivial": len({r[3] for r in sim.trace}) >= 2 or sum(sim.faults.values()) > 0,
         "final": _final(sim),
